@@ -318,6 +318,8 @@ def main():
                      "how_to_replay": "./check C04 --replay <this file>"})
     if len(unknown) > 8:
         c.violation({"kind": "unrecorded-panic", "more": [("%s %s frame=%s msg=%s" % k) for k, _ in unknown[8:40]]})
+    c.oblige("every panic / hang / crash of the real code in the crash stream is a recorded finding (%d failure classes)" % len(classes), not unknown,
+             [("%s %s frame=%s msg=%s" % k) for k, _ in unknown[:10]])
 
     # (c) pinned inputs of the findings and of the Lean witnesses still fail the recorded way
     stale = []
